@@ -32,6 +32,11 @@ TOL_FWD_REV = 1e-10
 H = 1e-6
 CLAMP_EXCL = 1e-3
 
+# Candidate finding F10: with cone=elliptic every gradient of forward/step is NaN as soon as the model has a contact slot, even
+# when the contact is far from active (and elliptic without frictional contact slots hits the TypeError of finding F2), so
+# the elliptic cone is excluded from the default domain; C45_FINDINGS=1 re-enables it.
+FINDINGS = bool(os.environ.get('C45_FINDINGS'))
+
 PARAMS = ('body_mass', 'body_inertia', 'dof_damping', 'dof_armature', 'jnt_stiffness', 'actuator_gainprm0',
           'actuator_biasprm12', 'tendon_stiffness', 'tendon_damping', 'gravity')
 
@@ -56,7 +61,7 @@ def add_far_plane(xml):
 def smooth_models(draw):
   fam = draw(st.sampled_from(['S', 'K']))
   okw = dict(flags=False, fluid=(fam == 'S'), integrators=('Euler', 'Euler', 'implicitfast', 'RK4'),
-             iterations=(60 if fam == 'S' else 1), cones=('pyramidal', 'elliptic') if fam == 'K' else ('pyramidal',))
+             iterations=(60 if fam == 'S' else 1), cones=('pyramidal', 'elliptic') if (fam == 'K' and FINDINGS) else ('pyramidal',))
   gm = draw(gx.models(max_bodies=3, family='A', contacts=False, sensors=False, mocap=False, plane=False,
                       equalities=(fam == 'K'), opt_kwargs=okw, spread=0.5))
   if fam == 'S':
